@@ -148,10 +148,23 @@ type Call struct {
 }
 
 type Decl struct {
-	Kind string // func struct const
+	Kind string // func struct const constblock
 	F    *Func
 	S    *StructDecl
 	C    *ConstDecl
+	CB   []*ConstDecl // a parenthesised const ( ... ) block: one declaration, several names
+}
+
+// DeclNames: the Coq names the declaration must yield.
+func (d Decl) DeclNames() []string {
+	if d.Kind == "constblock" {
+		var ns []string
+		for _, c := range d.CB {
+			ns = append(ns, c.Name)
+		}
+		return ns
+	}
+	return []string{d.DeclName()}
 }
 
 func (d Decl) DeclName() string {
@@ -456,6 +469,15 @@ func (c *ConstDecl) Go() string {
 }
 
 func (d Decl) Go() string {
+	if d.Kind == "constblock" {
+		var sb strings.Builder
+		sb.WriteString("const (\n")
+		for _, c := range d.CB {
+			fmt.Fprintf(&sb, "\t%s %s = %s\n", c.Name, c.T.Go(), c.Expr)
+		}
+		sb.WriteString(")\n")
+		return sb.String()
+	}
 	switch d.Kind {
 	case "func":
 		return d.F.Go()
